@@ -167,15 +167,23 @@ func runQuicCase(c crashCase) string {
 	}
 	// continued service for an honest peer
 	tag := []byte("honest-after-attack|0123456789abcdef")
-	ctx, cancel := context.WithTimeout(context.Background(), 5*time.Second)
+	honestStart := time.Now()
+	ctx, cancel := context.WithTimeout(context.Background(), ev.Extended(5*time.Second))
 	defer cancel()
+	stalled := func(msg string) string {
+		// the limits below are what a responsive machine is given; on a stalled one the case is not judged
+		if ev.Stalled(honestStart) {
+			return "skip: machine stalled during the honest exchange"
+		}
+		return msg
+	}
 	if err := q.honest.Tell(ctx, q.vAddr, p2p.IOVec{tag}); err != nil {
-		return "after the hostile peer, an honest Tell to the node fails: " + err.Error()
+		return stalled("after the hostile peer, an honest Tell to the node fails: " + err.Error())
 	}
 	resp := make([]byte, mtu)
 	n, err := q.honest.Ask(ctx, resp, q.vAddr, p2p.IOVec{[]byte("ping")})
 	if err != nil || string(resp[:max(n, 0)]) != "re:ping" {
-		return fmt.Sprintf("after the hostile peer, an honest Ask is not answered: n=%d err=%v", n, err)
+		return stalled(fmt.Sprintf("after the hostile peer, an honest Ask is not answered: n=%d err=%v", n, err))
 	}
 	deadline := time.Now().Add(5 * time.Second)
 	for {
@@ -191,7 +199,7 @@ func runQuicCase(c crashCase) string {
 			break
 		}
 		if time.Now().After(deadline) {
-			return "after the hostile peer, the honest tell was not delivered within 5 s"
+			return stalled("after the hostile peer, the honest tell was not delivered within 5 s")
 		}
 		time.Sleep(5 * time.Millisecond)
 	}
@@ -400,7 +408,7 @@ func quicServerAttack(q *quicVictim, cred string, acts []packet, mtu int) string
 			}
 		}
 		cancel()
-		if d := time.Since(start); d > 3*time.Second {
+		if d := time.Since(start); d > 3*time.Second && !ev.Stalled(start) {
 			return fmt.Sprintf("%s to a hostile server took %v with a 400 ms context", a.Kind, d)
 		}
 	}
